@@ -68,6 +68,15 @@ Theorem C13_invoker_waits_for_body :
 Proof. intros c os i v ch k a s. exact (only_cancel s i v ch k a). Qed.
 Print Assumptions C13_invoker_waits_for_body.
 
+(* While the invoker waits for the cancelled body (between cancel() and <-done), the only execution of its
+   task that can still be running is the one it cancelled, and its context is cancelled. *)
+Theorem C13_cancelled_while_joining :
+  forall c os i v k, let s := exec (init c true) os in
+    nth_error (invs s) i = Some v -> ipc v = PC k ->
+    forall k' cf, In (k', cf) (bodies v) -> k' = k /\ cf = true.
+Proof. intros c os i v k s. exact (joining_cancelled s i v k (reach_Inv c os)). Qed.
+Print Assumptions C13_cancelled_while_joining.
+
 (* At most the configured number of bodies run at once. *)
 Theorem C13_bounded_bodies :
   forall c os, total_running (exec (init c true) os) <= c.
